@@ -75,6 +75,7 @@ class SymRun:
     warnings: list
     escaped: str | None = None  # exception escaping SEVM.run, if any
     sevm: object = None
+    symbolic_storage: bool = False
 
 
 class _Capture(logging.Handler):
@@ -87,6 +88,8 @@ class _Capture(logging.Handler):
 
 
 def symbolic_run(scn: Scenario, **cfg) -> SymRun:
+    cfg = dict(cfg)
+    symbolic_storage = cfg.pop("symbolic_storage", False)
     sevm, args = sevmdrv.mk_sevm(**cfg)
     cd = ByteVec()
     if scn.selector:
@@ -96,6 +99,10 @@ def symbolic_run(scn: Scenario, **cfg) -> SymRun:
     extra = {con_addr(a): c for a, c in scn.contracts.items() if a != MAIN}
     ex = sevmdrv.mk_ex(sevm, args, scn.main_code(), calldata=cd, this=con_addr(MAIN), extra_code=extra,
                        is_static=scn.static)
+    if symbolic_storage:
+        # what svm.enableSymbolicStorage / vm.setArbitraryStorage do: the account's initial storage is arbitrary
+        for a in scn.contracts:
+            ex.storage[con_addr(a)].symbolic = True
     cap = _Capture()
     loggers = [logging.getLogger("halmos"), logging.getLogger("halmos.unique")]
     for lg in loggers:
@@ -137,7 +144,7 @@ def symbolic_run(scn: Scenario, **cfg) -> SymRun:
         signal.signal(signal.SIGALRM, old_handler)
         for lg in loggers:
             lg.removeHandler(cap)
-    return SymRun(paths, list(sevm.logs.bounded_loops), cap.records, escaped, sevm)
+    return SymRun(paths, list(sevm.logs.bounded_loops), cap.records, escaped, sevm, symbolic_storage)
 
 
 # --------------------------------------------------------------------------------------------------
@@ -152,6 +159,7 @@ class Inputs:
     value: int
     balances: dict             # address -> initial balance
     baldefault: int = 0
+    storage: dict = field(default_factory=dict)   # (address, scalar slot) -> initial value (symbolic-storage scenarios)
 
     def env(self):
         e = {f"a{i}": v for i, v in enumerate(self.args)}
@@ -161,12 +169,25 @@ class Inputs:
         bal = dict(self.balances)
         dflt = self.baldefault
         e["balance_0"] = Arr(lambda idx, d=dflt: d, {(k,): v for k, v in bal.items()})
+        per_acct = {}
+        for (a, slot), v in self.storage.items():
+            e[storage_symbol(a, slot)] = v                       # solidity layout: one constant per scalar slot
+            per_acct.setdefault(a, {})[(slot,)] = v
+        for a, m in per_acct.items():
+            e[f"storage_0x{a:040x}_256_00"] = Arr(lambda idx: 0, m)   # generic layout: one array over 256-bit locations
         return e
 
     def key(self):
-        return (tuple(self.args), self.caller, self.origin, self.value, tuple(sorted(self.balances.items())), self.baldefault)
+        return (tuple(self.args), self.caller, self.origin, self.value, tuple(sorted(self.balances.items())), self.baldefault,
+                tuple(sorted(self.storage.items())))
 
 
+def storage_symbol(addr: int, slot: int) -> str:
+    """name of the initial value of a scalar slot under symbolic storage (SolidityStorage.init: storage_<addr>_<slot>_0_0_00)"""
+    return f"storage_0x{addr:040x}_{slot}_0_0_00"
+
+
+SCALAR_STORAGE = re.compile(r"^storage_(0x[0-9a-f]+)_(\d+)_0_0_00$")
 INPUT_NAMES = re.compile(r"^(a\d+|msg_sender|tx_origin|msg_value|balance_0)$")
 EMPTY_ARRAY = re.compile(r"^(storage_.+|balance)_00$")
 
@@ -177,6 +198,8 @@ def _default_uf(name, args, sort):
             return keccak(b"")
         if EMPTY_ARRAY.match(name) and sort.kind() == z3.Z3_ARRAY_SORT:
             return Arr(lambda idx: 0)
+        if SCALAR_STORAGE.match(name) and sort.kind() == z3.Z3_BV_SORT:
+            return 0   # initial value of a scalar slot the inputs do not mention
     raise Unknown(name)
 
 
@@ -273,6 +296,9 @@ def lean_requests(scn: Scenario, inp: Inputs, fuel=20000, memlimit=1 << 20):
         lines.append(f"code {hx(a)} {hb(c)}")
     for a, v in inp.balances.items():
         lines.append(f"balance {hx(a)} {hx(v)}")
+    for (a, slot), v in inp.storage.items():
+        if v:
+            lines.append(f"storage {hx(a)} {hx(slot)} {hx(v)}")
     cd = scn.selector + b"".join(v.to_bytes(32, "big") for v in inp.args)
     lines.append(f"exec {hx(inp.caller)} {hx(MAIN)} {hx(inp.value)} {hb(cd)} {hx(fuel)} {1 if scn.static else 0}")
     return lines
@@ -405,7 +431,14 @@ def model_to_inputs(m, scn: Scenario, rng=None) -> Inputs:
                 dflt = fi.else_value().as_long() if z3.is_bv_value(fi.else_value()) else 0
         except Exception:  # noqa: BLE001
             pass
-    return Inputs([val(f"a{i}") for i in range(scn.nargs)], val("msg_sender"), val("tx_origin"), val("msg_value"), balances, dflt)
+    storage = {}
+    for d in m.decls():
+        mm = SCALAR_STORAGE.match(d.name())
+        if mm and d.arity() == 0:
+            v = m[d]
+            if z3.is_bv_value(v):
+                storage[(int(mm.group(1), 16), int(mm.group(2)))] = v.as_long()
+    return Inputs([val(f"a{i}") for i in range(scn.nargs)], val("msg_sender"), val("tx_origin"), val("msg_value"), balances, dflt, storage)
 
 
 def solve_inputs(conds, scn, extra=(), timeout_ms=2000, n=1):
